@@ -73,6 +73,44 @@ func ruleNameAllocators(c *Ctx, r *Repo, r1, r2, r3 string) {
 			okLeave, okCont := false, true
 			cands := map[string]bool{}
 			const ne = "RECV.NameExists<(template.MethodScope).NameExists>("
+			// a first candidate may be tried before the loop (peeled first round): the statements before
+			// the loop either fall through to it after a taken candidate or return a free one
+			{
+				pd := newDT(info)
+				pd.paths = nil
+				var prefix []ast.Stmt
+				for _, st := range fd.Body.List {
+					if st == ast.Stmt(loop) {
+						break
+					}
+					prefix = append(prefix, st)
+				}
+				pd.stmts(seedEnv(pd, fd), prefix, func(p *dtPath) { pd.finish(p, "end") })
+				for _, p := range pd.paths {
+					tested := map[string]bool{}
+					for _, a := range p.Atoms {
+						if strings.HasPrefix(a.Expr, ne) && strings.HasSuffix(a.Expr, ")") {
+							cand := a.Expr[len(ne) : len(a.Expr)-1]
+							tested[cand] = a.Val
+							cands[cand] = true
+						}
+					}
+					switch p.Exit {
+					case "return":
+						if ex, has := tested[p.Ret[0]]; !(len(p.Ret) == 1 && has && !ex) {
+							okCont = false
+							c.Fail(r1, "SuggestName|commit-unchecked", r.Pos(p.RetPos), "SuggestName returns "+strings.Join(p.Ret, ",")+" before the loop without NameExists having just reported it free: "+p.String())
+						}
+					case "end":
+						for _, ex := range tested {
+							if !ex {
+								okCont = false
+								c.Fail(r1, "SuggestName|skip-free-name", r.Pos(loop.Pos()), "a candidate found free before the loop is not returned: "+p.String())
+							}
+						}
+					}
+				}
+			}
 			for _, p := range d.paths {
 				// the candidates this round tested
 				tested := map[string]bool{}
@@ -503,6 +541,53 @@ func ruleImportsListing(c *Ctx, r *Repo, rule string) {
 			}
 		}
 	}
+	// the same with the standard-library helpers: list := slices.AppendSeq(<empty>, maps.Values(imports)) /
+	// slices.Collect(maps.Values(imports)); slices.SortFunc(list, func(a, b) int { return strings.Compare(a.Path(), b.Path()) })
+	if !okAppend {
+		fcI := newFuncCanon(info, fd)
+		for _, s := range fd.Body.List {
+			switch x := s.(type) {
+			case *ast.AssignStmt:
+				if len(x.Lhs) == 1 && len(x.Rhs) == 1 {
+					cx := fcI.E(x.Rhs[0])
+					if cx == "slices.Collect(maps.Values(RECV.imports))" || strings.HasPrefix(cx, "slices.AppendSeq(builtin.make([]*Package, 0") && strings.HasSuffix(cx, "), maps.Values(RECV.imports))") {
+						if id, ok := x.Lhs[0].(*ast.Ident); ok {
+							okAppend = true
+							listObj = objOf(info, id)
+						}
+					}
+				}
+			case *ast.ExprStmt:
+				call, ok := x.X.(*ast.CallExpr)
+				if !ok || len(call.Args) != 2 || !isObj(info, call.Args[0], listObj) {
+					continue
+				}
+				if n := calleeName(info, call); n != "slices.SortFunc" && n != "slices.SortStableFunc" {
+					continue
+				}
+				if fl, ok := call.Args[1].(*ast.FuncLit); ok && len(fl.Body.List) == 1 {
+					var ps []string
+					for _, f := range fl.Type.Params.List {
+						for _, n := range f.Names {
+							ps = append(ps, n.Name)
+						}
+					}
+					if rs, ok := fl.Body.List[0].(*ast.ReturnStmt); ok && len(rs.Results) == 1 && len(ps) == 2 {
+						got := types.ExprString(rs.Results[0])
+						if got == fmt.Sprintf("strings.Compare(%s.Path(), %s.Path())", ps[0], ps[1]) || got == fmt.Sprintf("cmp.Compare(%s.Path(), %s.Path())", ps[0], ps[1]) {
+							okSort = true
+						} else {
+							c.Fail(rule, "Imports|comparator", r.Pos(rs.Pos()), "the import list is ordered by "+got+", want ascending Path()")
+						}
+					}
+				}
+			case *ast.ReturnStmt:
+				if len(x.Results) == 1 && isObj(info, x.Results[0], listObj) {
+					okRet = true
+				}
+			}
+		}
+	}
 	c.Check(okAppend, rule, "Imports|one-per-path", r.Pos(fd.Pos()), "each imports entry appended once", "Imports does not append each value of the imports map exactly once")
 	c.Check(okSort && okRet, rule, "Imports|sorted-by-path", r.Pos(fd.Pos()), "sorted by Path() before being returned", "Imports does not return the list sorted by Path()")
 	if pq := FuncDecl(tp, "Packages.PkgQualifier"); pq != nil {
@@ -524,6 +609,49 @@ func ruleImportsListing(c *Ctx, r *Repo, rule string) {
 						ok = true
 					}
 				}
+			}
+		}
+		if !ok {
+			// idx := slices.IndexFunc(p, func(x *Package) bool { return x.Path() == pkgPath }); idx < 0 => error; else p[idx].Qualifier()
+			var pred *ast.FuncLit
+			var idxCall *ast.CallExpr
+			ast.Inspect(pq.Body, func(n ast.Node) bool {
+				if call, isCall := n.(*ast.CallExpr); isCall && calleeName(info, call) == "slices.IndexFunc" && len(call.Args) == 2 && isObj(info, call.Args[0], info.Defs[pq.Recv.List[0].Names[0]]) {
+					if fl, isLit := call.Args[1].(*ast.FuncLit); isLit {
+						pred, idxCall = fl, call
+					}
+				}
+				return true
+			})
+			if pred != nil && len(pred.Body.List) == 1 && pred.Type.Params.NumFields() == 1 && len(pred.Type.Params.List[0].Names) == 1 {
+				elem := pred.Type.Params.List[0].Names[0].Name
+				arg := pq.Type.Params.List[0].Names[0].Name
+				predOK := false
+				if rs, isRet := pred.Body.List[0].(*ast.ReturnStmt); isRet && len(rs.Results) == 1 {
+					got := types.ExprString(rs.Results[0])
+					predOK = got == elem+".Path() == "+arg || got == arg+" == "+elem+".Path()"
+				}
+				paths, _ := enumerateFunc(info, pq)
+				idx := newFuncCanon(info, pq).E(idxCall)
+				good := predOK && len(paths) > 0
+				for _, p := range paths {
+					neg, has := p.atom(idx + " < 0")
+					if !has {
+						if v, h2 := p.atom(idx + " >= 0"); h2 {
+							neg, has = !v, true
+						}
+					}
+					if !has || p.Exit != "return" || len(p.Ret) != 2 {
+						good = false
+						continue
+					}
+					if neg {
+						good = good && p.Ret[1] != "nil"
+					} else {
+						good = good && p.Ret[1] == "nil" && p.Ret[0] == "RECV["+idx+"].Qualifier<(template.Package).Qualifier>()"
+					}
+				}
+				ok = good
 			}
 		}
 		c.Check(ok, rule, "PkgQualifier|lookup", r.Pos(pq.Pos()), "qualifier of the element with that path, else an error", "Packages.PkgQualifier does not return the qualifier of the element whose Path() equals the argument (and an error otherwise)")
